@@ -76,6 +76,16 @@ def q_regime(x, lam):
     return bool((gap + 1e-8 < 1 / (2 * lam) * (1 + 1e-9)).any())
 
 
+def q_mixed_direction(x):
+    """Same predicate as C05's qcvar_mixed_direction (dim 0): a column constant at the resolution of its dtype beside ordinary ones."""
+    with torch.no_grad():
+        inp = x - x.mean(dim=0, keepdim=True)
+        lower = torch.amin(-inp, dim=0, keepdim=True) - 1e-8
+        upper = torch.amax(-inp, dim=0, keepdim=True) + 1e-8
+        dec = torch.relu(-lower - inp).mean(dim=0, keepdim=True) > torch.relu(-upper - inp).mean(dim=0, keepdim=True)
+        return bool((~dec).any()) and bool(dec.any()) and bool((lower < upper).all())
+
+
 def leq(a, b, slack):
     return bool((a.to(F64) <= b.to(F64) + slack).all())
 
@@ -129,6 +139,8 @@ def drv_axioms(ctx, k, rng):
             key = rel
             if q and not cond and any(q_regime(s_, lam) for s_ in kw.get("_samples", [])):
                 key = "qcvar.bracket_lower_bound_above_root"
+            if q and not cond and any(s_.dim() > 1 and q_mixed_direction(s_) for s_ in kw.get("_samples", [])):
+                key = "qcvar.constant_column_flips_search_direction"
             kw.pop("_samples", None)
             ctx.check(mon, cond, key, msg, sig=(name, rel) + base_sig, trivial=triv, **kw)
 
@@ -229,6 +241,13 @@ def drv_witness(ctx, k, rng):
     ok = bool(r <= -1.25 - 1 / (4 * lam) + tol_q(X, lam))
     ctx.check(mon, ok, "qcvar.bracket_lower_bound_above_root" if q_regime(X, lam) else "bounds",
               f"QuadraticCVaR(2)(const 1.25) = {float(r)!r} > -min - 1/(4 lam) = -1.375", sig=("witness",), X=X, lam=lam, rho=r)
+    X2 = torch.tensor([[-0.34759521484375, 3060119.5], [-0.3045158386230469, 3060119.5], [-0.13638892769813538, 3060119.5]], dtype=F32)
+    lam2 = 303.36865483144476
+    r2 = QuadraticCVaR(lam2)(X2)
+    ctx.seen(mon)
+    ctx.check(mon, bool(r2[0] <= 0.34759521484375 - 1 / (4 * lam2) + 1e-4), "qcvar.constant_column_flips_search_direction" if q_mixed_direction(X2) else "bounds",
+              f"QuadraticCVaR({lam2:.1f}) of a column with worst outcome -0.3476 is {float(r2[0])!r} (> -min - 1/(4 lam)) when a column constant at float32 "
+              "resolution sits beside it", sig=("witness2",), X=X2, lam=lam2, rho=r2)
     try:
         QuadraticCVaR(4.815820373175851)(torch.full((10,), 4060.885009765625, dtype=F32))
     except RuntimeError as ex:
